@@ -205,12 +205,15 @@ def main(tier):
                                        "a": verdict(lambda: FractionScalar("verif limited", value=fv, unit=u)),
                                        "b": verdict(lambda: Scalar("verif limited", float(fv), u))})
             pairs = [(a, b) for a in us for b in us if a != b]
+            # units that are nearly (not exactly) the same size are always kept, with every amount of the pool: a converted numerator next to a whole number
+            near = set((a, b) for a, b in pairs if 0.0 < abs(db.Convert(qt, a, b, 1.0) - 1.0) < 1e-6 and db.Convert(qt, a, b, 0.0) == 0.0)
             if len(pairs) > (400 if thorough else 14):
                 pairs = rng.sample(pairs, 400 if thorough else 14)
+            pairs = pairs + sorted(near - set(pairs))
             # pairs that differ by an offset get every amount of the pool (a zero whole part, a negative fraction, ...), the others one
             work = []
             for u, v in pairs:
-                if db.Convert(qt, u, v, 0.0) != 0.0:
+                if db.Convert(qt, u, v, 0.0) != 0.0 or (u, v) in near:
                     work += [(u, v, f_) for f_ in fvals]
                 else:
                     work.append((u, v, fvals[(len(work) + len(u)) % len(fvals)]))
